@@ -42,7 +42,7 @@ def sexpOfResult (r : QueryResult) : Sexp :=
          sexpOfSig r.ending, .sym (toString r.bound)] ++ (if r.cyc then [.sym "cyclic"] else []))
 
 /-- One API operation of a scenario. -/
-def stepOp (mode : Mode) (fuel : Nat) (e : Engine) : Sexp → Engine × Sexp
+def stepOp (mode : Mode) (fuel : Nat) (e : Engine) (pyTop : Bool := false) : Sexp → Engine × Sexp
   | .list (.sym "load" :: .sym ow :: cs) =>
       match cs.mapM sclauseOfSexp with
       | some cs => (e.load mode cs (ow == "overwrite"), .sym "ok")
@@ -64,20 +64,20 @@ def stepOp (mode : Mode) (fuel : Nat) (e : Engine) : Sexp → Engine × Sexp
   | .list (.sym "query" :: .str name :: sched :: ts) =>
       match schedOfSexp sched, ts.mapM termOfSexp with
       | some sched, some ts =>
-          let (e', r) := e.query mode fuel name ts sched
+          let (e', r) := e.query mode fuel name ts sched pyTop
           (e', sexpOfResult r)
       | _, _ => (e, .sym "bad-op")
   | .list (.sym "eb" :: limit :: .str name :: raiseAt :: ts) =>
       match natOfSexp limit, ts.mapM termOfSexp with
       | some limit, some ts =>
-          let (e', r) := e.evaluateBounded mode limit name ts (natOfSexp raiseAt)
+          let (e', r) := e.evaluateBounded mode limit name ts (natOfSexp raiseAt) pyTop
           (e', sexpOfResult r)
       | _, _ => (e, .sym "bad-op")
   | _ => (e, .sym "bad-op")
 
-def runScenario (mode : Mode) (fuel : Nat) (ops : List Sexp) : Sexp :=
+def runScenario (mode : Mode) (fuel : Nat) (ops : List Sexp) (pyTop : Bool := false) : Sexp :=
   let (_, outs) := ops.foldl (fun (e, outs) op =>
-    let (e', o) := stepOp mode fuel e op
+    let (e', o) := stepOp mode fuel e pyTop op
     (e', outs ++ [o])) (({} : Engine), ([] : List Sexp))
   .list (.sym "results" :: outs)
 
@@ -126,6 +126,7 @@ def handle : Sexp → Sexp
   | .list (.sym "scenario" :: mode :: fuel :: ops) =>
       match modeOfSexp mode, natOfSexp fuel with
       | some m, some f => runScenario m f ops
+      | none, some f => if mode == .sym "python" then runScenario .compiled f ops true else .sym "bad-op"
       | _, _ => .sym "bad-op"
   | .list [.sym "unify", fuel, .list pairs, .list watch, sched] =>
       match natOfSexp fuel, pairs.mapM (fun p => match p with
